@@ -1,4 +1,5 @@
 import OnlVerif.Lemmas.ResStep
+import OnlVerif.Lemmas.ConserveExamples
 /-!
 # C07 — containers and stores are bounded, conservative, ordered, never strand a request
 
@@ -159,5 +160,102 @@ theorem cancel_rescans (s : KState ℚ σ) (e : EvId) (r : ResId) (hk : (s.ev e)
 
 /-! non-vacuity -/
 example : listMin [5, 2, 9, 2] = some 2 := by decide
+
+/-! ## ===== b-conserve: global conservation theorems (whole runs, every program) — BEGIN =====
+
+Vocabulary (`Lemmas/Conserve*.lean`).  A request event is *granted* exactly when it is triggered.
+`grantedPuts s r` / `grantedGets s r`: the triggered put / get events of resource `r` in the event table of `s`;
+`amountSum s l`: the sum of the amounts the requests in `l` carry; `putItems s r`: the items of the granted puts;
+`gotItems s r`: the values `x` with which get events of `r` were triggered (`out = ok (int x)`).
+`WF s0`: the initial state is well-formed (callbacks `check c`/`build c` name conditions, process-table entries name
+process events, queues hold untriggered requests of their own resource, no duplicates) — `WF.init`: every fresh
+environment is.  `SafeReach body fuel s0 s`: `s` is reachable from `s0` by kernel steps of program `body` during
+which no `succeed`/`fail` API call of the program targets a request event (`stepOK`; the real `_do_put` would raise
+"already triggered" there — outside the domain of C07).  `domain_covers_programs_without_succeed` shows the
+hypothesis is met by every run of every program that never calls `succeed`/`fail`; the examples exhibit concrete runs. -/
+
+/-- **A Container's level equals its initial level plus all granted puts minus all granted gets** — in every state
+any program can reach from an environment in which no request has been issued yet. -/
+theorem level_conservation (body : σ → Resume → Burst ℚ σ) (fuel : Nat) (s0 s : KState ℚ σ)
+    (hW : WF s0) (h0 : ∀ e, isReq s0 e = false) (hr : SafeReach body fuel s0 s)
+    (r : ResId) (hk : (s.res r).kind = .container) :
+    (s.res r).level = (s0.res r).level + amountSum s (grantedPuts s r) - amountSum s (grantedGets s r) := by
+  have h := reach_levelCons body fuel s0 s hW hr r hk
+  rw [grantedPuts_noReq s0 r h0, grantedGets_noReq s0 r h0] at h
+  simp only [amountSum, List.map_nil, List.sum_nil] at h
+  have h' : (s.res r).level - amountSum s (grantedPuts s r) + amountSum s (grantedGets s r) = (s0.res r).level := by
+    simpa [amountSum] using h
+  omega
+
+/-- **The same between any two states of a run**: `level − Σ granted puts + Σ granted gets` is a constant of every run. -/
+theorem level_conservation_between (body : σ → Resume → Burst ℚ σ) (fuel : Nat) (s s' : KState ℚ σ)
+    (hW : WF s) (hr : SafeReach body fuel s s') (r : ResId) (hk : (s'.res r).kind = .container) :
+    (s'.res r).level - amountSum s' (grantedPuts s' r) + amountSum s' (grantedGets s' r) =
+      (s.res r).level - amountSum s (grantedPuts s r) + amountSum s (grantedGets s r) :=
+  reach_levelCons body fuel s s' hW hr r hk
+
+/-- **Every item a Store / PriorityStore / FilterStore accepted is handed to exactly one getter exactly once**: as
+multisets, items still held ⊎ items handed to getters = initial items ⊎ items of the granted puts. -/
+theorem store_exactly_once (body : σ → Resume → Burst ℚ σ) (fuel : Nat) (s0 s : KState ℚ σ)
+    (hW : WF s0) (h0 : ∀ e, isReq s0 e = false) (hr : SafeReach body fuel s0 s)
+    (r : ResId) (hk : isStoreKind (s.res r).kind = true) :
+    ((s.res r).items ++ gotItems s r).Perm ((s0.res r).items ++ putItems s r) := by
+  have h := reach_storeCons body fuel s0 s hW hr r hk
+  have hp0 : putItems s0 r = [] := by unfold putItems; rw [grantedPuts_noReq s0 r h0]; rfl
+  rw [gotItems_noReq s0 r h0, hp0] at h
+  simpa using h
+
+/-- **A granted get of a store carries exactly one item** (its outcome is `ok (int x)` for one `x`). -/
+theorem store_get_carries_one_item (body : σ → Resume → Burst ℚ σ) (fuel : Nat) (s0 s : KState ℚ σ)
+    (hW : WF s0) (h0 : ∀ e, isReq s0 e = false) (hr : SafeReach body fuel s0 s)
+    (r : ResId) (e : EvId) (hk : isStoreKind (s.res r).kind = true) (hg : (s.ev e).kind = .get r)
+    (ht : (s.ev e).out ≠ none) : ∃ x, (s.ev e).out = some (.ok (.int x)) :=
+  ((StoreRel.crel.reach body fuel s0 s hW hr).2 hW).2 (gotInt_noReq s0 h0) r e hk hg ht
+
+/-- **A request is granted at most once: the outcome of a granted request never changes afterwards**, and neither do
+its kind nor the data it carries (amount, item, priority, time, filter). -/
+theorem granted_outcome_never_changes (body : σ → Resume → Burst ℚ σ) (fuel : Nat) (s0 s s' : KState ℚ σ)
+    (hW : WF s0) (hr0 : SafeReach body fuel s0 s) (hr : SafeReach body fuel s s')
+    (e : EvId) (hq : isReq s e = true) (ht : (s.ev e).out ≠ none) :
+    (s'.ev e).out = (s.ev e).out ∧ (s'.ev e).kind = (s.ev e).kind ∧ coreOf s' e = coreOf s e := by
+  have hWs := (reach_base body fuel s0 s hW hr0).2
+  have hB := (reach_base body fuel s s' hWs hr).1
+  have hlt := lt_size_of_isReq hq
+  exact ⟨hB.outStable e hq ht, hB.kind e hlt, hB.core e hlt⟩
+
+/-- **Queues only ever hold untriggered requests of their own resource, without duplicates** (so `trigger` is only
+ever applied to an untriggered request: the scans grant queue members only), in every reachable state. -/
+theorem queues_hold_pending_requests (body : σ → Resume → Burst ℚ σ) (fuel : Nat) (s0 s : KState ℚ σ)
+    (hW : WF s0) (hr : SafeReach body fuel s0 s) (r : ResId) :
+    (∀ e ∈ (s.res r).putQ, (s.ev e).kind = .put r ∧ (s.ev e).out = none) ∧ (s.res r).putQ.Nodup ∧
+    (∀ e ∈ (s.res r).getQ, (s.ev e).kind = .get r ∧ (s.ev e).out = none) ∧ (s.res r).getQ.Nodup :=
+  have h := (reach_base body fuel s0 s hW hr).2
+  ⟨h.putQ r, h.putNodup r, h.getQ r, h.getNodup r⟩
+
+/-- **The domain hypothesis is satisfiable by whole classes of programs**: for a program that never calls
+`succeed`/`fail`, every reachable state is reachable inside the domain. -/
+theorem domain_covers_programs_without_succeed (body : σ → Resume → Burst ℚ σ) (h : ∀ st rs, (body st rs).NoTrig)
+    (fuel : Nat) (s0 s : KState ℚ σ) (hr : KReach body fuel s0 s) : SafeReach body fuel s0 s :=
+  safeReach_of_noTrig body h fuel s0 s hr
+
+/-! non-vacuity: `Container(capacity=10, init=1)`, one process doing `put(3); put(2); get(4)`: two granted puts and one
+granted get, level `1 + 3 + 2 − 4 = 2` -/
+example : WF ExContainer.s0 ∧ (∀ e, isReq ExContainer.s0 e = false) ∧ SafeReach ExContainer.body 5 ExContainer.s0 ExContainer.s1 :=
+  ⟨ExContainer.wf0, ExContainer.noReq0, ExContainer.reach⟩
+example : (ExContainer.s1.res 0).kind = .container :=
+  ((reach_base _ _ _ _ ExContainer.wf0 ExContainer.reach).1.resKind 0).trans rfl
+example : (ExContainer.s0.res 0).level = 1 ∧ (ExContainer.s1.res 0).level = 2 ∧
+    grantedPuts ExContainer.s1 0 = [2, 3] ∧ grantedGets ExContainer.s1 0 = [4] ∧
+    amountSum ExContainer.s1 (grantedPuts ExContainer.s1 0) = 5 ∧ amountSum ExContainer.s1 (grantedGets ExContainer.s1 0) = 4 := by
+  decide +kernel
+/-! non-vacuity: `Store(capacity=2)`, `put(7); put(5); put(9); get()`: after four kernel steps the third put has been
+granted by the rescan the get caused; the getter holds 7, the store holds 5 and 9 -/
+example : WF ExStore.s0 ∧ (∀ e, isReq ExStore.s0 e = false) ∧ SafeReach ExStore.body 5 ExStore.s0 ExStore.s4 :=
+  ⟨ExStore.wf0, ExStore.noReq0, ExStore.reach4⟩
+example : isStoreKind (ExStore.s4.res 0).kind = true ∧ (ExStore.s4.res 0).items = [5, 9] ∧ gotItems ExStore.s4 0 = [7] ∧
+    putItems ExStore.s4 0 = [7, 5, 9] ∧ (ExStore.s1.res 0).putQ = [4] ∧ (ExStore.s4.res 0).putQ = [] := by
+  decide +kernel
+
+/-! ## ===== b-conserve — END ===== -/
 
 end C07
